@@ -128,7 +128,7 @@ def run(ctx):
         for a, b in itertools.product(range(2), repeat=2):
             g = [[(f0, [a] if f0 != "or" else [a, 1 - a])], [(f1, [b] if f1 != "or" else [b, 1 - b])]]
             cases.append((g, False))
-    n = 400 if quick else 15000
+    n = 2000 if quick else 40000
     for _ in range(n):
         k = rng.randint(1, 6)
         miss = rng.random() < 0.15
